@@ -44,7 +44,7 @@ package runtime
 //@   assigns dAtA
 
 //@ func Skip
-//@   property C15, C06, C14
+//@   property C15, C06, C14, C03, C01
 //@   mode bv
 //@   loop 1: invariant 0 <= iNdEx && 0 <= depth && depth <= iNdEx && l == len(dAtA)
 //@   loop 1: invariant depth == 0 ==> iNdEx == 0
